@@ -1,1 +1,2 @@
 import KiraModel.Props.C13_a
+import KiraModel.Props.C13_b
